@@ -214,6 +214,9 @@ def _seg_at(s, rel, facts):
     if isinstance(s, IE):
         def byte(k):
             e = k if s.little else s.w - 1 - k
+            if e == s.w - 1:
+                # most significant byte: 0 <= x < 256**w makes the reduction mod 256 the identity
+                return s.x / z3.IntVal(256 ** e) if e else s.x
             return (s.x / z3.IntVal(256 ** e)) % 256 if e else s.x % 256
         if z3.is_int_value(rel):
             k = rel.as_long()
